@@ -215,6 +215,12 @@ def e1_key(path, facts):
         k = "::".join(segs[-2:])
         if k in facts.fns:
             return k
+        # a provided method of one of the crate's traits (`module::Trait::method`, one MIR body for all implementors): any of
+        # the implementors' entries stands for it, they share the body
+        if segs[-2] in facts.traits:
+            for cand, fn in sorted(facts.fns.items()):
+                if fn.node.get("provided_by") == segs[-2] and fn.name == segs[-1]:
+                    return cand
     return _best(p, facts)
 
 
